@@ -28,6 +28,9 @@ def run(cx):
     r4(cx)
     cx.rule("C04.R5", "table", "Task::is_ready: a needs-branch waits for a terminal needed sibling; an else branch runs iff all siblings are Skipped and gives up iff one of them ran")
     r5_is_ready(cx)
+    cx.rule("C04.R6", "TS", "the decision taken inside is_ready (the else branch gives up) is emitted before exec returns: the parent step is reviewed whatever the order in which its branches were initialised")
+    from rules import c01
+    c01.r6(cx, "C04.R6", only=r"Task::is_ready$", floor=1)
 
 
 def r2(cx):
